@@ -496,3 +496,48 @@ def assert_guard_rule(an: Analysis, rep, rule: str, entries):
                             f"`{norm_src(st)[:80]}` is the only thing that rejects this input, and it is an assert statement: under `python -O` it is not executed, the call "
                             f"continues and returns data / a code object that silently differs from its input")
     rep.add(rule, "assert statements in the API closures", True, "code_data/", f"{n} assert statement(s) in the closures of {list(entries)}", nontrivial=False)
+
+
+def loop_var_after_loop_rule(an: Analysis, rep, rule: str, entries):
+    """A name that is only bound as the target of a `for` loop and is read after the loop is unbound when the loop does not run (an empty
+    table, a CodeData without instructions): UnboundLocalError instead of a result."""
+    rep.rule(rule, "no loop variable is read after its loop without a binding before it", 0)
+    from .encode_model import parent_map
+    n = 0
+    seen = set()
+    for entry in entries:
+        for f in an.closure(entry):
+            if f.qual in seen or not isinstance(f.node, ast.FunctionDef):
+                continue
+            seen.add(f.qual)
+            pm = parent_map(f.module)
+            params = set(f.params)
+            for lp in ast.walk(f.node):
+                if not isinstance(lp, ast.For):
+                    continue
+                targets = {x.id for x in ast.walk(lp.target) if isinstance(x, ast.Name)}
+                par = pm.get(id(lp))
+                for suite in ("body", "orelse", "finalbody"):
+                    stmts = getattr(par, suite, None)
+                    if not (isinstance(stmts, list) and any(s_ is lp for s_ in stmts)):
+                        continue
+                    idx = [i for i, s_ in enumerate(stmts) if s_ is lp][0]
+                    after = stmts[idx + 1:]
+                    for v in sorted(targets - params):
+                        used = [x for s_ in after for x in ast.walk(s_) if isinstance(x, ast.Name) and x.id == v and isinstance(x.ctx, ast.Load)]
+                        if not used:
+                            continue
+                        # re-bound after the loop before the use?  (another loop with the same target, an assignment)
+                        first_use = min(used, key=lambda x: (x.lineno, x.col_offset))
+                        rebound = any(isinstance(x, ast.Name) and x.id == v and isinstance(x.ctx, ast.Store) and (x.lineno, x.col_offset) < (first_use.lineno, first_use.col_offset)
+                                      for s_ in after for x in ast.walk(s_))
+                        if rebound:
+                            continue
+                        n += 1
+                        bound_before = any(isinstance(x, ast.Name) and x.id == v and isinstance(x.ctx, ast.Store) and (x.lineno, x.col_offset) < (lp.lineno, lp.col_offset)
+                                           for x in ast.walk(f.node))
+                        rep.add(rule, f"{f.qual}::`{v}` read after `for {norm_src(lp.target)} in ...`", bound_before, loc(f.module, first_use),
+                                f"`{v}` has a binding before the loop" if bound_before else
+                                f"`{v}` is only bound by the loop over `{norm_src(lp.iter)[:50]}`; when that is empty (a CodeData without instructions - what from_code returns for an empty co_code) "
+                                f"the read at line {first_use.lineno} raises UnboundLocalError instead of encoding an empty table", config=entry)
+    rep.add(rule, "reads of loop variables after their loop examined", True, "code_data/", f"{n} in the closures of {list(entries)}", nontrivial=False)
